@@ -313,9 +313,15 @@ let parse_back_resp (g : bytes) spec : string =
   | Stdlib.Ok (tag, c, st) -> Printf.sprintf "%s%d;%s" tag c (resp_fields st)
   | Stdlib.Error v -> v
 
-let gen_of_state cfg (st : uri req_state) : bytes option =
+(* Request::generate, folding included (Model/Headers.v fold_header); a line limit below 2 makes
+   rhymessage compute `limit - 2` (known finding K4): not compared *)
+type genres = G of bytes | GErr of string
+let gen_of_state cfg (st : uri req_state) : genres =
   let t = match st.r_target with Some u -> u | None -> Lazy.force uri_default in
-  req_generate cfg st.r_method (bytes_of_string (fst t)) st.r_headers st.r_body
+  match req_generate_full cfg st.r_method (bytes_of_string (fst t)) st.r_headers st.r_body with
+  | GOk b -> G b
+  | GCannotFold -> GErr "Headers.CouldNotBeFolded"
+  | GLimitUnderflow -> GErr "needs-fold"
 
 let run_genreq (a : string array) : string * string =
   let cfg = cfg_of a.(0) a.(1) a.(2) in
@@ -325,11 +331,11 @@ let run_genreq (a : string array) : string * string =
     let st0 = { r_phase = PRequestLine; r_method = unhex a.(3); r_target = Some u;
                 r_headers = parse_headers ~cp:false a.(5); r_body = unhex a.(6); r_total = N0 } in
     (match gen_of_state cfg st0 with
-     | None -> ("generr:needs-fold", "")
-     | Some g ->
+     | GErr e -> ("generr:" ^ e, "")
+     | G g ->
        let back = match feed_back_req cfg g (arg_opt a 7) with
          | Stdlib.Ok (tag, c, st) ->
-           let regen = match gen_of_state cfg st with Some g2 -> hex g2 | None -> "generr:needs-fold" in
+           let regen = match gen_of_state cfg st with G g2 -> hex g2 | GErr "needs-fold" -> "generr:needs-fold" | GErr e -> "err:" ^ e in
            Printf.sprintf "%s%d;%s;regen=%s" tag c (req_fields st) regen
          | Stdlib.Error v -> v in
        (Printf.sprintf "gen=%s;orig=%s;back=%s" (hex g) (req_fields st0) back, ""))
@@ -358,8 +364,8 @@ let run_rtreq (a : string array) : string * string =
   match first with
   | (st, Complete _) ->
     (match gen_of_state cfg st with
-     | Some g -> (Printf.sprintf "first=%s;gen=%s;back=%s" (req_fields st) (hex g) (parse_back_req cfg g (arg_opt a 4)), "")
-     | None -> (Printf.sprintf "first=%s;generr:needs-fold" (req_fields st), ""))
+     | G g -> (Printf.sprintf "first=%s;gen=%s;back=%s" (req_fields st) (hex g) (parse_back_req cfg g (arg_opt a 4)), "")
+     | GErr e -> (Printf.sprintf "first=%s;generr:%s" (req_fields st) e, ""))
   | (_, Incomplete _) -> ("notcomplete:I", "")
   | (_, Reject e) -> ("notcomplete:R:" ^ err_cat e, "")
 
